@@ -674,6 +674,20 @@ impl<A: ArenaAllocator> Drop for Arena<A> {
             let value = x.payload_ptr();
             x.0.drop_in_place(value);
         });
+        #[cfg(feature = "verif_hooks")]
+        if crate::verif_hooks::poison_enabled() {
+            unsafe {
+                for bump in [&self.drop, &self.non_drop] {
+                    for chunk in bump.iter_allocated_chunks_rev() {
+                        crate::verif_hooks::poison_region(chunk.as_ptr() as *mut u8, chunk.len());
+                    }
+                }
+            }
+            if crate::verif_hooks::quarantine_enabled() {
+                self.drop.verif_quarantine();
+                self.non_drop.verif_quarantine();
+            }
+        }
     }
 }
 
